@@ -347,7 +347,13 @@ def correspond(ctx, scale=1):
             want = {"cs": info["suite"].hex(), "new": "1", "vers": vers.hex() if vers else "N"}
         elif kind == "ee":
             want = {"new": "1", "vers": vers.hex() if vers else "N"}
-        if not short_sh:
+        # RFC 8446 4.2: an extension type appears at most once. The independent expectation for ALPN is only defined for
+        # such lists; what the code makes of a message that repeats the ALPN extension is pinned by the model
+        # correspondence (tlsmsgs.valid), not by this spec point.
+        n_alpn = sum(1 for ty, _ in (info.get("exts") or []) if ty == 16)
+        if not short_sh and (n_alpn == 0 or (n_alpn == 1 and alpn is not None)):
+            # no ALPN extension → nothing recorded; one RFC 7301-conformant extension → its protocol name.
+            # (A single extension whose list length field is wrong is malformed: no expectation.)
             want["alpn"] = hx(alpn) if alpn is not None else "N"
         if not line.startswith("ok "):
             ctx.disagree("tlsmsgs.spec", {"kind": kind, "record": rec.hex()}, line, "valid message must not raise")
